@@ -56,6 +56,16 @@ CHECKS = {
             'same class from glom. Validators are total predicates; reflected operands (x & M-expr) are not generated. '
             'Bounds: tree depth <= 4, <= 3 children, <= 4 Switch cases.',
             'DESIGN.md section 4 / C10'),
+    'C14': ('Hypothesis-generated object graphs (shared nodes, cycles, raising containers) and wildcard paths in three '
+            'spellings vs a breadth-first reference enumeration compared by identity; access-budgeted recording '
+            'containers decide termination; Assign/Delete through 1-3 wildcards vs a Python loop over the reference entries',
+            'Generated-input differential testing. The reference is a 40-line BFS with an identity-keyed visited set; '
+            'entries are compared by identity and nesting depth, misses after a wildcard must be dropped, an error '
+            'before the first wildcard must surface. Non-termination is detected deterministically by an access budget '
+            '(BaseException), not by a clock. Mutation through wildcards compares the operation log and the final structure.',
+            'Trusted: refstar()/children() in vf/props/c14.py. Containers in generated graphs are slot-based recording '
+            'subclasses (no instance __dict__, see known finding F14). Bounds: graph depth <= 4, <= 3 wildcards, at most two **.',
+            'DESIGN.md section 4 / C14'),
 }
 
 NOT_YET = 'check not built yet in this session (design in DESIGN.md section 4); will be claimed once its check is quiet on the unchanged tree'
